@@ -752,6 +752,7 @@ def _nd_reshape(I, st, selfv, pos, kws, node):
         nm = rs.nanmask
         ref = ok.alloc(Seq2Val(rs.dtype, m, n, lambda r, c: e(r * n + c), (lambda r, c: nm(r * n + c)) if nm else None))
         ok.heap[ref.id].valid_total = rs.valid_total
+        ok.heap[ref.id].flat_src = getattr(ok.heap.get(selfv.id), "pad_src", None) if isinstance(selfv, Ref) else None
         res.append((ok, ref))
     return res
 
@@ -851,6 +852,7 @@ def _np_pad(I, st, pos, kws, node):
         nanv = Num(z3.RealVal(0), "real")
         ref = L.new_seq(ok, "ndarray", "real", n + k, lambda i: L.ite_val(i < n, _as_real_elem(e)(i), nanv), nanmask=lambda i: i >= n)
         ok.heap[ref.id].valid_total = n
+        ok.heap[ref.id].pad_src = rs
         res.append((ok, ref))
     return res
 
@@ -879,12 +881,17 @@ def _np_nanmean(I, st, pos, kws, node):
     excs, ok = I.may_raise(st, bad, "ZeroDivisionError", "nanmean of an all-NaN row (nan)", I.where(node))
     res = list(excs)
     if ok is not None:
-        RowSum = z3.Function(fresh_name("rowsum"), z3.IntSort(), z3.RealSort())
-        # rowsum(r) = SUM(row_r, 0, cnt(r)) with row_r an array term defined per r through a 2-argument function
-        ROW = z3.Function(fresh_name("row"), z3.IntSort(), ARR)
-        r, c = z3.Int(fresh_name("r")), z3.Int(fresh_name("c"))
-        ok.assume(z3.ForAll([r, c], ROW(r)[c] == to_real(e2(r, c)), patterns=[ROW(r)[c]]))
-        res.append((ok, L.new_seq(ok, "ndarray", "real", rows, lambda i: Num(SUM(ROW(i), z3.IntVal(0), cntf(i)) / z3.ToReal(cntf(i)), "real"))))
+        src = getattr(o, "flat_src", None)
+        if src is not None:
+            # rows of reshape(pad(a)): the valid part of row r is a[r*cols : r*cols + cnt(r)]
+            A = L.array_term(I, ok, src)
+            res.append((ok, L.new_seq(ok, "ndarray", "real", rows,
+                                      lambda i: Num(SUM(A, i * cols, i * cols + cntf(i)) / z3.ToReal(cntf(i)), "real"))))
+        else:
+            ROW = z3.Function(fresh_name("row"), z3.IntSort(), ARR)
+            r, c = z3.Int(fresh_name("r")), z3.Int(fresh_name("c"))
+            ok.assume(z3.ForAll([r, c], ROW(r)[c] == to_real(e2(r, c)), patterns=[ROW(r)[c]]))
+            res.append((ok, L.new_seq(ok, "ndarray", "real", rows, lambda i: Num(SUM(ROW(i), z3.IntVal(0), cntf(i)) / z3.ToReal(cntf(i)), "real"))))
     return res
 
 
